@@ -2547,6 +2547,28 @@ def restore_typing_state(state: typing.List[typing.Tuple[Any, ...]]) -> None:
     v._invalidate_content_cache()  # pylint: disable=protected-access
 
 
+def set_allow_partial_below(value: Any, allow_partial: bool) -> None:
+  """Sets `allow_partial` on the typed symbolic dicts / lists below `value`.
+
+  When a field overrides the `allow_partial` flag of a symbolic dict / list,
+  the typed containers below it follow: the recursive application of the
+  field's spec does that one level at a time, but a `pg.typing.Union` field
+  applies its chosen candidate in a second pass, which finds the flag of the
+  value already equal and does not descend.
+
+  Args:
+    value: a symbolic dict / list whose flag has just been overridden.
+    allow_partial: the new flag.
+  """
+  members = (dict.values(value) if isinstance(value, dict)
+             else list.__iter__(value))
+  for v in members:
+    if isinstance(v, Symbolic) and isinstance(v, (dict, list)):
+      if v._value_spec is not None:  # pylint: disable=protected-access
+        v._set_raw_attr('_allow_partial', allow_partial)  # pylint: disable=protected-access
+      set_allow_partial_below(v, allow_partial)
+
+
 def symbolic_transform_fn(allow_partial: bool):
   """Symbolic object transform function builder."""
 
